@@ -158,6 +158,11 @@ def enc_calls(g, tier, heavy=False):
             calls.append(("respMsgTypes", [hb(cc), hx(g.rbytes(n))]))
         for n in range(0, 8):
             calls.append(("respVendor", [hb(cc), hb(g.rb()), hx(g.rbytes(n))]))
+            calls.append(("respVendor", [hb(cc), hb(r.choice([0, 0xFF])), hx([r.choice([0x00, 0xFF, 0x01]) for _ in range(n)])]))
+        for ts in ([0], [1, 0, 0x7E], [0] * 5, [0xFF] * 30, [0] * 30, [0x7E, 0x00], list(range(30))):
+            calls.append(("respMsgTypes", [hb(cc), hx(ts)]))
+        calls.append(("respUuid", [hb(cc), hx([0] * 16)]))
+        calls.append(("respUuid", [hb(cc), hx([0xFF] * 16)]))
     # generic writers
     for name in ("genControl", "genPci", "genIana"):
         for h in ("none", "-", hx(g.rbytes(2)), hx(g.rbytes(5))):
@@ -511,6 +516,37 @@ def gen_history(g, nops, cid, cfg, fam, eid_pool=None):
             g.add("proc %s %s %s" % (cid, hx(q), hx(g.buf(64))), fam + "|hist:geteid")
 
 
+def gen_state_probes(g, tier, with_decode=False):
+    """state left behind by an earlier call: special EID values assigned by packet or accessor, then
+    every answerable request (and some other traffic) from sources that coincide with that state"""
+    r = g.r
+    for addr in (0x23, 0xFF, 0x00):
+        for e in (0x00, 0xFF, 0x01, 0xFE, addr, 0x56):
+            for how in ("packet", "accessor-both", "accessor-req", "accessor-resp"):
+                vendors = g.rand_vendors(2)
+                cid = g.ctx(addr, [0x7E, 0x00, 0x01], vendors)
+                if how == "packet":
+                    p = forge(addr & 0x7F, 0x34, 0, 0x34, 0, ctrl_req(1, [r.choice([0, 1]), e], iid=r.randrange(32)))
+                    g.add("proc %s %s %s" % (cid, hx(p), hx(g.buf(64))), "state:assign")
+                else:
+                    if how in ("accessor-both", "accessor-req"):
+                        g.add("seteid %s req %s" % (cid, hb(e)), "state:accessor")
+                    if how in ("accessor-both", "accessor-resp"):
+                        g.add("seteid %s resp %s" % (cid, hb(e)), "state:accessor")
+                for src_eid in (e, addr, 0x34, e ^ 0x80):
+                    for body, lab in answerable_requests(g, len(vendors), [e if e not in (0,) else 9]):
+                        p = forge(addr & 0x7F, src_eid & 0x7F, r.choice([e, addr, 0x99]), src_eid, 0, body)
+                        g.add("proc %s %s %s" % (cid, hx(p), hx(g.buf(64))), "state:request:" + lab)
+                        if with_decode and r.random() < 0.3:
+                            g.add("dec %s %s" % (cid, hx(p)), "state:decode")
+                    q = forge(addr & 0x7F, 0x11, r.choice([e, 0x77]), src_eid, r.choice([0x05, 0x06, 0x7E, 0x7F]), g.rbytes(3))
+                    g.add("proc %s %s %s" % (cid, hx(q), hx(g.buf(64))), "state:vendor")
+                    if with_decode:
+                        g.add("dec %s %s" % (cid, hx(q)), "state:decode")
+                    q = forge(addr & 0x7F, 0x11, r.choice([e, 0x77]), src_eid, 0, ctrl_resp(r.choice([1, 3, 4, 5, 6]), 0, g.rbytes(r.choice([3, 16, 5]))))
+                    g.add("proc %s %s %s" % (cid, hx(q), hx(g.buf(64))), "state:response")
+
+
 def gen_responses(g, tier):
     """responses written by process_packet are encoded packets too (C03, C04, C05): answerable
     requests with every instance id, before and after an EID was assigned"""
@@ -579,6 +615,7 @@ def gen_for(prop, tier, seed):
         gen_sizes(g, tier)
     elif prop in ("C09",):
         gen_decode_families(g, tier, "dec")
+        gen_state_probes(g, tier, with_decode=True)
     elif prop == "C10":
         ctxs = gen_decode_families(g, tier, "dec")
         gen_decode_families(g, tier, "proc", ctxs=ctxs)
@@ -592,6 +629,7 @@ def gen_for(prop, tier, seed):
             g.add("len %s" % hx([g.rb(), 0x0F, v]), "len-count")
             g.add("len %s" % hx([g.rb(), v, g.rb()] + g.rbytes(r.randrange(3))), "len-command")
             g.add("len %s" % hx([v, 0x0F, r.choice([0, 0xFB, 0xFC, 0xFF])] + g.rbytes(2)), "len-addr")
+        gen_state_probes(g, tier, with_decode=True)
         # every selector / operation value on a validly configured context
         cid = g.ctx(0x42, [0x7E, 0x7F], g.rand_vendors(3))
         for v in range(256):
@@ -619,7 +657,9 @@ def gen_for(prop, tier, seed):
             n = r2.choice([64, 65, 80, 128, 300])
             return [r2.randrange(256) for _ in range(n)]
         gen_decode_families(g, tier, "proc", proc_buf=pb)
+        gen_state_probes(g, tier)
     elif prop == "C12":
+        gen_state_probes(g, tier)
         resp_cfgs = [(0x23, [0x7E], [(0, 0x1234, 0xAB)]), (0x7F, g.rbytes(30), g.rand_vendors(4)),
                      (0x80 | r.randrange(128), [], g.rand_vendors(1)), (0x00, g.rbytes(5), g.rand_vendors(16))]
         for (addr, types, vendors) in resp_cfgs:
@@ -640,6 +680,7 @@ def gen_for(prop, tier, seed):
                 p = forge(addr & 0x7F, r.randrange(128), r.randrange(256), r.randrange(256), 0, body)
                 g.add("proc %s %s %s" % (cid, hx(p), hx(g.buf(64))), "answer-foreign:" + lab)
     elif prop == "C13":
+        gen_state_probes(g, tier)
         nh, no = (5000, 120) if T else (400, 40)
         for i in range(nh):
             addr = g.rb()
